@@ -52,6 +52,12 @@ pins the exits regenerated from the source to `enterExits`): the operation retur
 answer (`ok`, property-fixed: `cmpSpec`), after waiting for the release iff it is outside and the
 resize pending (`cmpModel`).  `rz-batch … => unobserved`: the meta page was not read after this batch.
 
+`kv rh-trigger <variant> reader=<0|1> used=<bytes> map=<bytes> chunk=<bytes> => waited|direct` and
+`kv rh-map … => <map size>`: run `rehandle` — a `Store` handle opened on an environment that is
+already registered while another handle's iterator is open; the batch through the new handle that
+finds the resize due must wait for the reader (`Model/KvResize.lean` `storeNewEnv` / `rehandleTrigger`,
+`Props/C18Handles.lean`).
+
 `kv space <map> <last_pg> <need> <chunk>`: run `frag` — the batch just executed could allocate at
 most `need` pages; if they fit behind the last page of the map `needs_resize` leaves, the batch
 must have succeeded (`tail_fit_never_fails`), whatever the fragmentation. -/
@@ -285,6 +291,25 @@ def handle (st : St) (args : List String) (impl : String) : St × Verdict :=
       else if toString a.mapSize = impl then ({ st with rz := a }, .ok)
       else if toString b.mapSize = impl then ({ st with rz := b }, .ok)
       else ({ st with rz := a }, .diff (toString a.mapSize))
+    | _, _, _, _ => (st, .unknown)
+  -- run `rehandle`: a handle opened on the registered environment while `reader` read transactions
+  -- of another handle are open; then `Store::batch()` through the NEW handle at usage `used`.
+  -- `waited` iff the resize is due and a reader is open (`Props/C18Handles.lean`
+  -- `new_handle_defers_under_reader` / `new_handle_resizes_at_once_when_idle`): the value the
+  -- property fixes (no resize under an open transaction) - `cmpSpec`
+  | "rh-trigger" :: _variant :: rest =>
+    match kvArg rest "reader", kvArg rest "used", kvArg rest "map", kvArg rest "chunk" with
+    | some reader, some used, some map, some chunk =>
+      let m : EnvMap := [(0, { gate := { mapSize := map, chunk := chunk, openTxs := reader }, stores := 1 })]
+      (st, cmpSpec (if rehandleTrigger m 0 used then "waited" else "direct") impl)
+    | _, _, _, _ => (st, .unknown)
+  | "rh-map" :: _variant :: rest =>
+    match kvArg rest "reader", kvArg rest "used", kvArg rest "map", kvArg rest "chunk" with
+    | some reader, some used, some map, some chunk =>
+      let m : EnvMap := [(0, { gate := { mapSize := map, chunk := chunk, openTxs := reader }, stores := 1 })]
+      -- the trigger's own commit and the parked writers come after the resize: the meta page shows
+      -- the planned size unless one of them already found the next resize due (not in this run)
+      (st, cmpModel (toString (rehandleMap m 0 used)) impl)
     | _, _, _, _ => (st, .unknown)
   | "gate-op" :: _who :: _kind :: rest => match kvArg rest "nested", kvArg rest "pending" with
     | some n, some p => (st, cmpSpec (GV.KvGate.gateOpOutcome GV.KvGate.enterExits (n = 1) (p = 1)).1 impl)
